@@ -228,8 +228,8 @@ def literal(v):
     if isinstance(v, int):
         return str(v)
     if isinstance(v, D):
-        s = f'{v:f}'
-        return s if '.' in s else s + '.0'
+        s = f'{v:f}'          # exponent-preserving: Decimal('10') is spelled '10.'
+        return s if '.' in s else s + '.'
     if isinstance(v, str):
         assert '"' not in v and "'" not in v
         return f"'{v}'"
